@@ -22,7 +22,7 @@ def default_params(tier):
 
 
 def run(ch, params, decoded=False):
-    knobs = R.draw_knobs(ch)
+    knobs = R.draw_knobs(ch, registries=True)
     prog = progmod.generate(ch, params)
     mode = prog["mode"]
     prefix = R.gen_prefix_ops(ch, params, mode, params.get("max_prefix", 0))
@@ -36,7 +36,7 @@ def run(ch, params, decoded=False):
                     "pn": ["b", "a"][: 1 + ch.draw(2, "rr_pn")], "pa": "" if ch.chance(1, 4, "rr_pa") else "QA"}
     w = R.start_world(knobs, mode)
     violations = []
-    stats = {"mode=" + mode: 1, "prefix_ops": len(prefix)}
+    stats = {"mode=" + mode: 1, "prefix_ops": len(prefix), "registry=" + knobs.get("registry", "default"): 1}
     R.run_prefix_ops(prefix, w, stats)
 
     exp = ref.run_model(prog)
@@ -69,7 +69,9 @@ def run(ch, params, decoded=False):
         w.begin_op()
         check("dynamic", R.real_render_page(dprog, dclasses, w, budget=budget * 2), dexp["result"])
         stats["variant:dynamic"] = 1
-    if prog["py_entry"] and not violations:
+    # (Cls.render() binds the instance to the DEFAULT registry, i.e. to the project-wide mode: not comparable when the
+    #  run's components live in a private registry configured with the other mode)
+    if prog["py_entry"] and not violations and knobs.get("registry") != "private-opposite":
         w.begin_op()
         check("python", R.real_render_python(prog, classes, w, budget=budget, slot_funcs=slot_funcs), exp["result"])
         stats["variant:Component.render"] = 1
